@@ -269,18 +269,24 @@ def _check_mesh_topology(ctx, spec, sel, out_conv, path, what):
         want = [[nmap[a], nmap[b]] for a, b in (edges[e] for e in kept_e)]
         ctx.check(got == want, "C09.mesh_edge_node",
                   lambda: f"{what}: edge_node of the result = {got}; kept edges renumbered give {want}")
-        if "face_edge" in supplied:
-            ctx.at("C09.mesh_face_edge")
-            got = [[v for v in r if v is not None] for r in _rows(topo.face_edge_array)]
-            want = [[emap[e] for e in tables["face_edge"][f]] for f in kept_f]
-            ctx.check(got == want, "C09.mesh_face_edge",
-                      lambda: f"{what}: face_edge of the result = {got}; expected {want}")
         if "edge_face" in supplied:
             ctx.at("C09.mesh_edge_face")
             got = [sorted(v for v in r if v is not None) for r in _rows(topo.edge_face_array)]
             want = [sorted(fmap[f] for f in tables["edge_face"][e] if f in fmap) for e in kept_e]
             ctx.check(got == want, "C09.mesh_edge_face",
                       lambda: f"{what}: edge_face of the result = {got}; expected {want}")
+    kept_e_file = None
+    if "face_edge" in supplied:
+        # in the file's own edge numbering (which is all there is when the mesh has a face-edge
+        # table but no edge-node table): the edges of the kept faces, renumbered in order
+        kept_e_file = sel.kept_positions("edge") if "edge_node" in supplied else \
+            sorted({e for f in kept_f for e in tables["face_edge"][f]})
+        emap = {old: new for new, old in enumerate(kept_e_file)}
+        ctx.at("C09.mesh_face_edge")
+        got = [[v for v in r if v is not None] for r in _rows(topo.face_edge_array)]
+        want = [[emap.get(e) for e in tables["face_edge"][f]] for f in kept_f]
+        ctx.check(got == want, "C09.mesh_face_edge",
+                  lambda: f"{what}: face_edge of the result = {got}; expected {want}")
     if "face_face" in supplied:
         ctx.at("C09.mesh_face_face")
         got = [sorted(v for v in r if v is not None) for r in _rows(topo.face_face_array)]
@@ -292,7 +298,8 @@ def _check_mesh_topology(ctx, spec, sel, out_conv, path, what):
     # index base, integer type, value range - as written to disk
     raw = specs.build_raw(spec)
     counts = {"face_node": len(kept_n), "edge_node": len(kept_n),
-              "face_edge": len(sel.marks.get("edge", [])), "edge_face": len(kept_f),
+              "face_edge": len(kept_e_file) if kept_e_file is not None else len(sel.marks.get("edge", [])),
+              "edge_face": len(kept_f),
               "face_face": len(kept_f)}
     with netCDF4.Dataset(path) as nc:
         nc.set_auto_mask(False)
@@ -328,8 +335,32 @@ def mesh_strategy(tier):
     return _clip.clip_cases(convs=["ugrid"], max_vars=2)
 
 
+def face_edge_only_strategy(tier):
+    """Meshes that say which edges bound each face (face-edge table, declared edge dimension) but
+    store nothing along the edge dimension itself: no edge-node table, no edge coordinates, no
+    edge data."""
+    from hypothesis import strategies as st
+
+    @st.composite
+    def build(draw):
+        case = draw(_clip.clip_cases(convs=["ugrid"], max_vars=2))
+        spec = case["spec"]
+        supply = draw(st.sampled_from([["face_edge"], ["face_edge", "face_face"]]))
+        enc = draw(S.ugrid_encoding(supply=supply, require_edge_node=False))
+        enc["edge_dim_attr"] = True
+        enc["edge_coords"] = False
+        enc["transposed"] = [t for t in enc["transposed"] if t != "edge_node"]
+        spec["geom"]["enc"] = enc
+        spec["vars"] = [v for v in spec["vars"] if v["kind"] != "edge"]
+        spec.pop("dim_coords", None)
+        return case
+    return build()
+
+
 SUBS = [
     Sub("clip_validity", strategy, check_case, quick=120, thorough=500),
     Sub("clip_validity_meshes", mesh_strategy, check_case, quick=80, thorough=400),
+    Sub("face_edge_table_without_edge_variables", face_edge_only_strategy, check_case,
+        quick=20, thorough=120),
 ]
 MATCHERS = {}
